@@ -7,8 +7,12 @@ for m in sorted(glob.glob(os.path.join(HERE, "seeded", "*", "meta.json"))):
     d = json.load(open(m))
     needs = (d.get("needs_to_manifest") or "").strip().splitlines()
     first = next((ln.strip("# ").strip() for ln in needs if ln.strip()), "")
-    ran = ", ".join(f"{c}:{'caught' if v['caught'] else 'missed'}" for c, v in d.get("checks_run", {}).items())
+    hist = d.get("checks_history") or {c: [v] for c, v in d.get("checks_run", {}).items()}
+    ran = ", ".join(f"{c}({h[-1].get('tier', 'quick')}):{'caught' if h[-1]['caught'] else 'missed'}"
+                    + (f" [missed before strengthening x{sum(1 for e in h[:-1] if not e['caught'])}]"
+                       if h[-1]['caught'] and any(not e['caught'] for e in h[:-1]) else "")
+                    for c, h in sorted(hist.items()))
     rows.append(f"| {d['id']} | {d['property']} | {first[:110]} | {'yes' if d.get('confirmed') else 'NO'} | {d.get('tests_tail','')[:28]} | {ran} |")
-print("| id | property | change (first line of the author's notes) | demo confirmed | unit tests with change | checks run (quick tier) |")
+print("| id | property | change (first line of the author's notes) | demo confirmed | unit tests with change | checks run against the change (last result per check) |")
 print("|---|---|---|---|---|---|")
 print("\n".join(rows))
